@@ -4,7 +4,7 @@
    What is NOT proved here and is exercised by the schedule driver instead: that SQLite serialises
    BEGIN IMMEDIATE ... COMMIT, that readers see the last committed state, that thread-local connections
    and processes behave as separate connections. *)
-From DC Require Import DCPrelude Conc ConcFacts ConcTheorems.
+From DC Require Import DCPrelude Conc ConcFacts ConcTheorems ConcTrace ConcTraceFacts.
 
 Theorem C05_invariant_all_schedules : forall (D R : Type) (refs : D -> list Z) (Dinv : D -> Prop) (c : config D R) s,
   Inv refs Dinv c -> Inv refs Dinv (exec c s).
@@ -37,3 +37,11 @@ Theorem C05_one_writer_at_a_time : forall (D R : Type) (refs : D -> list Z) (Din
   Inv refs Dinv c -> lock c = Some (j, wk) -> i <> j -> in_txn (c_pc (cl c i)) = false.
 Proof. exact lock_excludes. Qed.
 Print Assumptions C05_one_writer_at_a_time.
+
+(* every micro-step of the machine is a transition of the stage automaton against which the event
+   sequence of every instrumented API call of the implementation is checked (trace correspondence) *)
+Theorem C05_trace_simulation : forall (D R : Type) (c : config D R) i c',
+  cstep c i = Some c' ->
+  trans_ok true (phase_of (c_pc (cl c i))) (step_tag c i) (phase_of (c_pc (cl c' i))) = true.
+Proof. exact step_is_transition. Qed.
+Print Assumptions C05_trace_simulation.
